@@ -4,6 +4,8 @@ from .. import env, histgen, model, session, wire
 from ..runner import Prop, Stage, Result, Draw
 
 LIFE = re.compile(r' after -?\d+\.\d{4}s')
+# the default mix plus messages on objects the log never showed being created (a log that starts mid-session)
+WEIGHTS = dict(delete=14, bind=12, message=40, server_event=10, sync=4, enum=8, title=6, retype=6, newer=4, nulls=4, midsession=7)
 
 
 def projection(s, conn):
@@ -76,7 +78,10 @@ def run_interleaved(specs, res, tagsuffix=''):
     s = session.Session()
     segs = s.run([['line', wire.render(m, 'new')] for m in specs] + [['cmd', 'connection']])
     W = model.MWorld()
+    W_ids_before = []
     for m in specs:
+        c = W.conns.get(m['conn'] if m['conn'] is not None else 'PARSED')
+        W_ids_before.append(set(c.db) if c is not None else {1})
         W.step(m)
     # notices: exactly one New before the first message line of X, exactly one Closed after the last input line
     seen_new, first_line = {}, {}
@@ -115,7 +120,10 @@ def run_interleaved(specs, res, tagsuffix=''):
     msg_lines = [session.MSG_LINE.match(l) for k, i, l in lines_out if k == 'line']
     shown_names = [mm.group(2) for mm in msg_lines if mm]
     model_names = [W.conns[m['conn'] if m['conn'] is not None else 'PARSED'].name for m in specs]
-    if shown_names != model_names:
+    # (a message on an object never seen created has no object to take the name from: the tool leaves the prefix empty and
+    #  files it under the connection `unknown` for matchers; it must still never carry another connection's name)
+    unseen = [m['id'] not in W_ids_before[k] for k, m in enumerate(specs)]
+    if len(shown_names) != len(model_names) or any(a != b and not (u and a == '') for a, b, u in zip(shown_names, model_names, unseen)):
         res.bad('line-prefix', 'prefixes %r, model %r' % (shown_names[:20], model_names[:20]))
     # the `connection` command: listed (open or closed) with role and count
     cmd = [seg for seg in segs if seg.kind == 'cmd']
@@ -145,7 +153,7 @@ class Isolation(Stage):
         tags = histgen.gen_tags(d, n, tagged=True)
         hs = []
         for k in range(n):
-            g = histgen.ConnGen(tags[k], d.choice(['client', 'server']), dict(reuse=0.7))
+            g = histgen.ConnGen(tags[k], d.choice(['client', 'server']), dict(reuse=0.7, weights=WEIGHTS))
             hs.append(dict(tag=tags[k], specs=[g.next(d) for _ in range(d.int(1, 25 if n < 4 else 14))]))
 
         def order():
